@@ -361,6 +361,36 @@ class Tr:
             if result is None:
                 raise Unsupported("block without a value")
             return (result, "State")
+        if k == "id" and v == "let" and self.peek(1) == ("op", "("):
+            # `let (a, b) = EXPR;`
+            self.p += 2
+            names = []
+            while not self.at(")"):
+                if self.at_id("mut"):
+                    self.p += 1
+                names.append(self.peek()[1])
+                self.p += 1
+                if self.at(","):
+                    self.p += 1
+            self.eat(")")
+            self.eat("=")
+            e = self.expr()
+            self.eat(";")
+            if not (e[1].startswith("(") and e[1].endswith(")")):
+                raise Unsupported("tuple pattern bound to %r" % (e,))
+            tys = e[1][1:-1].split(" × ")
+            if len(tys) != len(names):
+                raise Unsupported("tuple pattern arity")
+            self.tcount = getattr(self, "tcount", 0) + 1
+            t = "tp%d_" % self.tcount
+            lets = "let %s := %s;\n" % (t, e[0])
+            for i, (n, ty) in enumerate(zip(names, tys)):
+                proj = t + "".join(".2" for _ in range(i)) + (".1" if i < len(names) - 1 else "")
+                if n != "_":
+                    self.env[n] = ty
+                    lets += "let %s := %s;\n" % (lname(n), proj)
+            rest = self.stmts(tail_needed, result)
+            return (lets + rest[0], rest[1])
         if k == "id" and v == "let":
             self.p += 1
             if self.at_id("mut"):
